@@ -1089,6 +1089,10 @@ func init() {
 			inr := c.And(c.BVCmp("bvule", b.Off, k), c.BVCmp("bvult", k, c.BVBin("bvadd", b.Off, b.Len)))
 			e.assumeFact(c.ForallPat([]*Term{k}, c.Eq(c.Select(nd, k), c.Ite(inr, c.Select(draw, c.BVBin("bvsub", k, b.Off)), c.Select(old, k))), c.Select(nd, k)))
 			e.set(e.cur, "mem:bv8", c.Store(mem, b.Base, nd))
+			// ghost: how many times a random draw has been written starting at this position
+			key := c.Idx(b.Base, b.Off)
+			rf := e.get(e.cur, "ghost:randfill", Arr(RefS, BV64))
+			e.set(e.cur, "ghost:randfill", c.Store(rf, key, c.BVBin("bvadd", c.Select(rf, key), c.BVLit(1, 64))))
 			tt := resT.(*types.Tuple)
 			return &SVal{K: KTuple, Typ: resT, Fields: []*SVal{{K: KScalar, Typ: tt.At(0).Type(), T: b.Len}, e.zero(tt.At(1).Type())}}
 		},
@@ -1238,6 +1242,12 @@ func init() {
 			e := env.e
 			g := e.get(env.state(), "ghost:sends", Arr(RefS, BV64))
 			return &SVal{K: KScalar, Typ: types.Typ[types.Int], T: e.c.Select(g, e.c.NilRef())}
+		},
+		"randFills": func(env *Env, n *ast.CallExpr, args []*SVal) *SVal {
+			// randFills(s): number of crypto/rand.Read calls so far that wrote a draw starting at s[0]
+			e := env.e
+			rf := e.get(env.state(), "ghost:randfill", Arr(RefS, BV64))
+			return &SVal{K: KScalar, Typ: types.Typ[types.Int], T: e.c.Select(rf, e.c.Idx(args[0].Base, args[0].Off))}
 		},
 		"lastSendFailed": func(env *Env, n *ast.CallExpr, args []*SVal) *SVal {
 			// the most recent transport.Send returned an error
